@@ -183,6 +183,75 @@ let jclass_name j = match int_of_n (jclass_id j) with
   | 5 -> "nameserver-tokens" | 6 -> "sortlist-token" | 7 -> "options-plain" | 8 -> "options-numeric"
   | 9 -> "search-empty" | 10 -> "lookup-noword" | _ -> "sortlist-mask"
 
+(* A "nameserver" line all of whose entries are URIs that cannot name a server: another scheme, or a
+   dns:// URI that violates RFC 3986 / the rules of ares_uri.h in a way that does not depend on the
+   parser - empty host, host that is not an IP address, bad percent escape, characters that may
+   not appear in a URI, non-numeric or too large port, an empty query pair or a pair without key.
+   General URIs are not modelled (robustness only): this class has no theorem behind it, but the
+   metamorphic oracle applies - such a line must be ignored like any other junk. *)
+let uri_cannot_name_server (t : string) =
+  let lower = String.lowercase_ascii t in
+  let find_sub s sub = let n = String.length s and m = String.length sub in
+    let rec go i = if i + m > n then None else if String.sub s i m = sub then Some i else go (i + 1) in go 0 in
+  match find_sub t "://" with
+  | None ->
+    (* plain form: an address with a numeric port above 65535 *)
+    (match String.rindex_opt t ':' with
+     | Some j when j > 0 && j < String.length t - 1 ->
+       let a = String.sub t 0 j and d = String.sub t (j + 1) (String.length t - j - 1) in
+       let a_ok = if a.[0] = '[' then a.[String.length a - 1] = ']' && pton_unspec (bytes_of_str (String.sub a 1 (String.length a - 2))) <> None
+         else String.contains a '.' && not (String.contains a ':') && pton_unspec (bytes_of_str a) <> None in
+       a_ok && String.for_all (fun ch -> ch >= '0' && ch <= '9') d && (String.length d > 5 || int_of_string d > 65535)
+     | _ -> false)
+  | Some i ->
+    let scheme = String.sub lower 0 i and rest = String.sub t (i + 3) (String.length t - i - 3) in
+    if scheme <> "dns" then true else begin
+      let cut s chars = let n = String.length s in
+        let rec go i = if i >= n then n else if String.contains chars s.[i] then i else go (i + 1) in
+        let j = go 0 in (String.sub s 0 j, String.sub s j (n - j)) in
+      let (auth, tail) = cut rest "/?#" in
+      let query = if tail <> "" && tail.[0] = '?' then Some (fst (cut (String.sub tail 1 (String.length tail - 1)) "#")) else None in
+      let is_hex ch = (ch >= '0' && ch <= '9') || (ch >= 'a' && ch <= 'f') || (ch >= 'A' && ch <= 'F') in
+      let bad_pct_in str = let n = String.length str in
+        let rec go i = if i >= n then false
+          else if str.[i] = '%' && not (i + 2 <= n - 1 && is_hex str.[i + 1] && is_hex str.[i + 2]) then true else go (i + 1) in go 0 in
+      (* a zone id "%eth0" inside [..] is not an escape *)
+      let bad_pct = bad_pct_in tail || (not (String.contains auth '[') && bad_pct_in auth) in
+      let bad_char = String.exists (fun ch -> ch <= ' ' || ch > '~' || String.contains "\"<>\\^`{|}" ch) rest in
+      let auth_full = auth in
+      let auth = match String.rindex_opt auth '@' with Some j -> String.sub auth (j + 1) (String.length auth - j - 1) | None -> auth in
+      let (host, port) =
+        if auth <> "" && auth.[0] = '[' then
+          (match String.index_opt auth ']' with
+           | Some j -> (String.sub auth 1 (j - 1), String.sub auth (j + 1) (String.length auth - j - 1))
+           | None -> ("", "x"))
+        else (match String.rindex_opt auth ':' with
+            | Some j -> (String.sub auth 0 j, String.sub auth j (String.length auth - j))
+            | None -> (auth, "")) in
+      let host = match String.index_opt host '%' with Some j -> String.sub host 0 j | None -> host in
+      let bad_port = port <> "" && port <> ":" &&
+                     (port.[0] <> ':' || (let d = String.sub port 1 (String.length port - 1) in
+                                          not (String.for_all (fun ch -> ch >= '0' && ch <= '9') d) || String.length d > 5 || int_of_string d > 65535)) in
+      let not_ip = host = "" || (pton_unspec (bytes_of_str host) = None) in
+      let bad_query = match query with
+        | Some q when q <> "" ->
+          q.[0] = '&' || find_sub q "&&" <> None || q.[0] = '=' || find_sub q "&=" <> None
+        | _ -> false in
+      auth_full = "" || bad_pct || bad_char || bad_port || not_ip || bad_query
+    end
+
+let uri_junk_line (raw : string) =
+  let t = String.trim raw in
+  let kw = "nameserver" in
+  let n = String.length kw in
+  if String.length t <= n + 1 || String.sub t 0 n <> kw || not (t.[n] = ' ' || t.[n] = '\t') then false
+  else begin
+    let arg = String.trim (String.sub t n (String.length t - n)) in
+    let toks = List.filter (fun x -> x <> "") (List.concat_map (split_on ' ') (split_on ',' arg)) in
+    toks <> [] && String.length arg < 512 && String.for_all (fun ch -> ch >= ' ' && ch <= '~') arg &&
+    List.for_all uri_cannot_name_server toks
+  end
+
 (* judge the junk-marked units with the extracted grammar: Some classes when every marked line is
    junk (and there is one), None otherwise *)
 let junk_verdict c =
@@ -193,7 +262,7 @@ let junk_verdict c =
     let cls = List.map (fun (t, d) ->
         let b = bytes_of_str d in
         match t with
-        | 'J' | 'r' -> (match junk_class_raw b with Some j -> Some (jclass_name j) | None -> None)
+        | 'J' | 'r' -> (match junk_class_raw b with Some j -> Some (jclass_name j) | None -> if uri_junk_line d then Some "uri-malformed" else None)
         | 'E' -> if junk_localdomain b then Some "env-localdomain" else None
         | 'O' -> if junk_res_options b then Some "env-resoptions" else None
         | 'n' -> if junk_db_line (n_of_int 58) (bytes_of_str " \t") b then Some "nsswitch" else None
@@ -273,7 +342,8 @@ let init_model c env = let (o, m) = build_options c in un (init_options inet_fns
 let run_rc k c impl =
   let judged = junk_verdict c in
   let has_re = List.exists (fun (t, _) -> t = 'R' || t = 'r') c.units || pget c "reinit" <> None in
-  List.iter (fun with_junk ->
+  let unmodelled = ref false in
+  List.iter (fun with_junk -> try
       let tag = if with_junk then "full" else "nojunk" in
       let defifs = aif_of impl k tag in
       (match init_model c (env_of c ~with_junk ~reinit:false ~defifs) with
@@ -285,8 +355,10 @@ let run_rc k c impl =
            | Stdlib.Ok ch2 -> cmp k ("re" ^ tag) (render_chan 0 ch2) impl
            | Stdlib.Error _ -> ()
          end
-       | Stdlib.Error s -> cmp k tag (Printf.sprintf "st=%d" s) impl)) [true; false];
-  (* oracles on the implementation's output *)
+       | Stdlib.Error s -> cmp k tag (Printf.sprintf "st=%d" s) impl)
+      with Model_unmodelled -> unmodelled := true) [true; false];
+  (* oracles on the implementation's output (also when the model has no prediction: a general
+     URI among the servers) *)
   List.iter (fun tag -> match impl_line impl k tag with Some d -> user_wins k c tag d; ranges k c tag d | None -> ())
     ["full"; "nojunk"; "refull"; "renojunk"];
   (match judged with
@@ -299,6 +371,7 @@ let run_rc k c impl =
        | _ -> () in
      pair "full" "nojunk"; pair "refull" "renojunk"
    | None -> ());
+  if !unmodelled then raise Model_unmodelled;
   let marked = List.exists (fun (t, _) -> List.mem t ['J'; 'r'; 'n'; 'v'; 's']) c.units || pget c "jenv.L" <> None || pget c "jenv.R" <> None in
   let opts = List.exists (fun (key, _) -> not (List.mem key ["env.L"; "env.R"; "jenv.L"; "jenv.R"; "host"; "noeol"; "reinit"])) c.params in
   (if marked then (match judged with Some cl -> "rc-junk:" ^ String.concat "+" cl | None -> "rc-junk-unjudged") else "rc-plain")
@@ -436,6 +509,39 @@ let run_opt k c impl =
      (match impl_line impl k "B" with
       | Some db -> cmp_fields "save-init-loss" db (if expressible then base @ ["servers"] else base)
       | None -> ());
+     (* the legacy struct holds the IPv4 servers only: what ares_save_options() writes must be the
+        IPv4 servers of the source, in the source's order, and the channel initialised from it must
+        have exactly those servers (the first one under ARES_FLAG_PRIMARY) *)
+     (let entry_v4 e =
+        let e = if starts_with "dns://" e then String.sub e 6 (String.length e - 6) else e in
+        if e = "" || e.[0] = '[' then None
+        else begin
+          let a = match String.index_opt e ':' with Some i -> String.sub e 0 i | None -> e in
+          match List.map int_of_string_opt (split_on '.' a) with
+          | [Some w; Some x; Some y; Some z] -> Some (a, Printf.sprintf "%02x%02x%02x%02x" w x y z)
+          | _ -> None
+        end in
+      let v4 = List.filter_map entry_v4 (split_on ',' srv) in
+      let mask_a = try int_of_string ("0x" ^ fget fa "mask") with _ -> 0 in
+      if mask_a land 0x40 <> 0 then begin
+        let want = if v4 = [] then "-" else String.concat "," (List.map snd v4) in
+        (match impl_line impl k "S" with
+         | Some ds when fget (fields ds) "st" = "0" ->
+           let got = fget (fields ds) "servers" in
+           if got <> want then pr "FAIL %d save-loss servers:%s saved=%s want=%s\n" k srv got want
+         | _ -> ());
+        (match impl_line impl k "B" with
+         | Some db when fget (fields db) "st" = "0" && v4 <> [] ->
+           let got = List.filter_map (fun e -> match entry_v4 e with Some (a, _) -> Some a | None -> Some ("?" ^ e)) (split_on ',' (fget (fields db) "servers")) in
+           let flags = try int_of_string ("0x" ^ fget fa "flags") with _ -> 0 in
+           let want = List.map fst v4 in
+           let want = if flags land 2 <> 0 then [List.hd want] else want in
+           (* ares_servers_update() drops duplicates *)
+           let rec dedup seen = function [] -> [] | x :: r -> if List.mem x seen then dedup seen r else x :: dedup (x :: seen) r in
+           if got <> dedup [] want then
+             pr "FAIL %d save-loss servers:%s reinit=%s want=%s\n" k srv (String.concat "," got) (String.concat "," (dedup [] want))
+         | _ -> ())
+      end);
      (match impl_line impl k "C" with
       | Some dc -> cmp_fields "dup-loss" dc (base @ ["servers"; "ldev"; "lip4"; "lip6"; "aif"])
       | None -> ());
@@ -625,6 +731,13 @@ let () =
       let cls =
         match parse_case line with
         | None -> "trivial-badcase"
+        | Some c when List.exists (fun l -> starts_with "R HANG" l) (impl_lines impl k) ->
+          (* the C driver's watchdog fired: the case did not finish within its CPU-time limit *)
+          let stage = match List.rev (List.filter (fun l -> starts_with "R " l && not (starts_with "R HANG" l)) (impl_lines impl k)) with
+            | l :: _ -> (match split_on ' ' l with _ :: t :: _ -> "after-" ^ t | _ -> "start") | [] -> "start" in
+          pr "FAIL %d init-hang kind=%s stage=%s %s\n" k c.kind stage
+            (match List.find_opt (fun l -> starts_with "R HANG" l) (impl_lines impl k) with Some l -> String.sub l 7 (String.length l - 7) | None -> "");
+          "hang"
         | Some c ->
           (try
              (match c.kind with
